@@ -2111,7 +2111,20 @@ def float_convert(self, x, st, dt):
                 return FloatV(32, struct.unpack('<I', struct.pack('<f', f))[0])
             except OverflowError:
                 return FloatV(32, 0x7f800000 if f > 0 else 0xff800000)
-        raise Unsupported('symbolic float width conversion')
+        # symbolic bit pattern: exact IEEE conversion through the FP theory for numbers; NaNs keep sign and payload
+        # (shifted) and get the quiet bit set, which is what amd64/arm64 conversions do
+        v = x.v
+        if st.bits == 32:
+            f = z3.fpBVToFP(v, z3.Float32())
+            conv = z3.fpToIEEEBV(z3.fpToFP(z3.RNE(), f, z3.Float64()))
+            isnan = z3.And(z3.Extract(30, 23, v) == BV(0xFF, 8), z3.Extract(22, 0, v) != BV(0, 23))
+            nan = z3.Concat(z3.Extract(31, 31, v), BV(0x7FF, 11), BV(1, 1), z3.Extract(21, 0, v), BV(0, 29))
+            return FloatV(64, z3.If(isnan, nan, conv))
+        f = z3.fpBVToFP(v, z3.Float64())
+        conv = z3.fpToIEEEBV(z3.fpToFP(z3.RNE(), f, z3.Float32()))
+        isnan = z3.And(z3.Extract(62, 52, v) == BV(0x7FF, 11), z3.Extract(51, 0, v) != BV(0, 52))
+        nan = z3.Concat(z3.Extract(63, 63, v), BV(0xFF, 8), BV(1, 1), z3.Extract(50, 29, v))
+        return FloatV(32, z3.If(isnan, nan, conv))
     if df:
         if type(x) is int:
             if dt.bits == 32:
